@@ -1,8 +1,8 @@
 (* Props/C12.v — property C12 "Output assembly loses nothing", stated about the model
    Gen/FileManager.v of generator/file_manager.go.  This file holds statements only;
    every proof is [exact lemma] and is followed by Print Assumptions. *)
-From Coq Require Import List Arith Bool.
-From Verif Require Import Base.Bytes Gen.FileManager Gen.FileManagerFacts Gen.FileManagerTerm Corr.C12 Gen.FileManagerSpec Gen.FileManagerText Gen.FileManagerExpand.
+From Coq Require Import List Arith Bool Permutation.
+From Verif Require Import Base.Bytes Gen.FileManager Gen.FileManagerFacts Gen.FileManagerTerm Corr.C12 Gen.FileManagerSpec Gen.FileManagerText Gen.FileManagerExpand Gen.FileManagerOrder.
 Import ListNotations.
 
 (* Every history of Feed calls (any number of calls, any items): the assembled output never
@@ -157,6 +157,25 @@ Theorem C12_expand_without_patches : forall s skip, expand [] skip s = strip_mar
 Proof. exact expand_nil. Qed.
 Print Assumptions C12_expand_without_patches.
 
+(* The replacer's table is a Go map.  BuildResponse lists its keys in descending string order
+   before handing them to strings.NewReplacer (`listed_pairs`): the listing has the table's
+   entries, is the same list whatever order the map delivers its entries in, and — the replacer
+   preferring the pair listed first — of all keys matching at a position the longest is taken. *)
+Theorem C12_listing_keeps_table : forall P k, lookup k (listed_pairs P) = lookup k P.
+Proof. exact lookup_listed. Qed.
+Print Assumptions C12_listing_keeps_table.
+
+Theorem C12_replacer_table_order_irrelevant :
+  forall P P', NoDup (map fst P) -> Permutation P P' -> listed_pairs P = listed_pairs P'.
+Proof. exact listed_pairs_order_irrelevant. Qed.
+Print Assumptions C12_replacer_table_order_irrelevant.
+
+Theorem C12_longest_key_wins :
+  forall P s k v, first_match (listed_pairs P) s = Some (k, v) ->
+  forall k', In k' (map fst P) -> is_prefix k' s = true -> List.length k' <= List.length k.
+Proof. exact listed_longest_first. Qed.
+Print Assumptions C12_longest_key_wins.
+
 (* Termination: for every history the model never exhausts the fuel it gives to the rename walk
    (the Go `for {}` loop) or to the item loop — the walk over own siblings ends, and among the
    candidate names `<stem>_<n><ext>` a free one is reached after at most as many steps as there are
@@ -186,4 +205,11 @@ Proof. vm_compute. reflexivity. Qed.
 Example C12_example_patches_in_domain :
   forallb ips_wf [[Fl (B "a.go") (B "x@@thriftgo_insertion_point(p)y@@thriftgo_insertion_point(q)");
         Up (B "p") (B "1"); Up (B "p") (B "2")]; [Np (B "a.go") (B "p") (B "3")]] = true.
+Proof. vm_compute. reflexivity. Qed.
+
+(* an insertion point name outside the marker alphabet: one key is a prefix of the other *)
+Example C12_example_overlapping_keys :
+  run [[Fl (B "a.go") (B "x@@thriftgo_insertion_point(a)b)y@@thriftgo_insertion_point(a)z");
+        Up (B "a") (B "1"); Up (B "a)b") (B "2")]]
+  = Ok [(B "a.go", B "x2y1z")].
 Proof. vm_compute. reflexivity. Qed.
